@@ -33,6 +33,7 @@ MISSING = _Missing()
 TS1 = "2020-01-01T12:00:00Z"
 TS2 = "2020-01-01T17:30:00+05:30"        # the same instant in another offset
 TS3 = "2020-01-01T11:30:00-01:00"        # a later instant whose text is smaller
+TS4 = "2020-01-01T08:30:00-03:30"        # the instant of TS1 again, west of Greenwich with minutes in the offset
 BASE = datetime(2000, 1, 1, tzinfo=timezone.utc)
 TS_RE = re.compile(r"([0-9]{4}-[0-9]{2}-[0-9]{2}T[0-9]{2}:[0-9]{2}:[0-9]{2})(?:\.([0-9]+))?(Z|[+-][0-9]{2}:[0-9]{2})\Z")
 NO_TS = {"ok": False, "sec": 0, "ns": 0}
@@ -241,7 +242,7 @@ def run_all(cases, pool=None, chunk=64):
 # ---------------------------------------------------------------------------------------------
 # the case space
 # ---------------------------------------------------------------------------------------------
-VALUES_Q = [MISSING, None, True, False, 0, 1, -1, 1.5, "", "a", "A", "b", "*", TS1, TS2, TS3, [], {}]
+VALUES_Q = [MISSING, None, True, False, 0, 1, -1, 1.5, "", "a", "A", "b", "*", TS1, TS2, TS3, TS4, [], {}]
 VALUES_T = VALUES_Q + [2, 100, 0.001, -1.5, 0.1, 2 ** 31, 1e100, "ab", "aa", "B", "a b", "\u00e9", "\uffff", "\U00010000",
                        "2020-01-01T12:00:00.5Z", "2020-01-01T12:00:00.123456Z", "2020-01-01T12:00:00.1234567Z",
                        "2020-01-01T12:00:00.000001+00:00", "2020-01-01t12:00:00z", "2020-01-01", "2016-12-31T23:59:60Z",
@@ -398,7 +399,7 @@ def random_cases(rng, n_trees, n_lists, n_pats):
             patom("StringEquals", "c", "a"), atom("IsNull", "b", False), atom("BooleanEquals", "a", True)]
     a_vals = A_VALS + [None, 1, "ab"]
     b_vals = B_VALS + [MISSING, 0.5, True, None]
-    c_vals = C_VALS + [MISSING, TS1, TS3, "", "a"]
+    c_vals = C_VALS + [MISSING, TS1, TS3, TS4, "", "a"]
 
     def rtree(depth):
         r = rng.random()
